@@ -63,6 +63,9 @@ def main(ctx):
         ctx.violation('concurrent single operations were not atomic: %r' % c, 'observed:mgr:atomic', replay=c)
     if data['key'] != {'connect': 'refused', 'right_key': 'accepted'}:
         ctx.violation('authentication key not enforced: %r' % data['key'], 'observed:mgr:key', replay=data['key'])
+    for e in data.get('errors', []):
+        ctx.violation('an operation that is valid on the local object raised through the manager: ' + e,
+                      'observed:mgr:error:' + e.split(':')[0], replay=e)
     if data['hostile'].get('served'):
         ctx.violation('a client without the key was served: %r' % data['hostile'], 'observed:mgr:hostile',
                       replay=data['hostile'])
@@ -74,7 +77,8 @@ def main(ctx):
     ctx.note('shared_twice', st)
     ctx.note('twin_ops', data['twin']['ops'])
     ctx.note('concurrent', c)
-    ctx.sample({'lifetime_trace': [o['act'] for o in obs[0]]})
+    if obs:
+        ctx.sample({'lifetime_trace': [o['act'] for o in obs[0]]})
     ctx.assumptions += ['referent semantics are not re-specified: the local object is the model '
                         '(twin comparison by the harness); in-process replay replaces the socket '
                         'client by one that hands requests to the real Server methods']
